@@ -65,7 +65,7 @@ var Keywords = []string{"SELECT", "FROM", "WHERE", "AND", "OR", "NOT", "AS", "ON
 // words that start compound keywords in the library are kept apart from their second word by the generator
 var compoundStarts = map[string]bool{"GROUP": true, "ORDER": true, "LEFT": true, "RIGHT": true, "INNER": true, "OUTER": true, "CROSS": true, "NATURAL": true, "FULL": true, "GROUPING": true}
 
-var Idents = []string{"a", "b1", "col_2", "tbl", "x", "users", "_tmp", "naïve", "名前", "Ünïcode_1", "selectx", "fromage", "a1b2"}
+var Idents = []string{"a", "b1", "col_2", "tbl", "x", "users", "_tmp", "naïve", "名前", "Ünïcode_1", "selectx", "fromage", "a1b2", "注文\uff3f番号", "user\u203fid"}
 
 // Ops is the documented operator and punctuation set.
 var Ops = []string{"(", ")", "[", "]", ",", ";", ".", "+", "-", "*", "/", "%", "=", "<>", "!=", "<", "<=", ">", ">=", "||", "::",
@@ -85,7 +85,7 @@ var QIdents = []strForm{{`"a\tb"`, `a\tb`}, {`"C:\data"`, `C:\data`}, {`"dom\use
 
 var Backticks = []strForm{{"`abc`", "abc"}, {"`select`", "select"}, {"`my col`", "my col"}, {"`order`", "order"}}
 
-var DollarStrs = []strForm{{"$$body$$", "body"}, {"$tag$ it's $tag$", " it's "}, {"$q$a $$ b$q$", "a $$ b"}, {"$$$$", ""}}
+var DollarStrs = []strForm{{"$$body$$", "body"}, {"$tag$ it's $tag$", " it's "}, {"$q$a $$ b$q$", "a $$ b"}, {"$$$$", ""}, {"$$order by$$", "order by"}, {"$k$LEFT JOIN$k$", "LEFT JOIN"}}
 
 func isWordByte(b byte) bool {
 	return b == '_' || b >= '0' && b <= '9' || b >= 'a' && b <= 'z' || b >= 'A' && b <= 'Z' || b >= 0x80
